@@ -375,6 +375,100 @@ macro_rules! member_step {
     };
 }
 
+// ---- 6.f index chains whose base is not a variable (`f()[0] get 2`, `f()[0].push(1)`) -----------------
+fn index_target_step(via_assign: bool) {
+    new_runtime!(rt, frame);
+    node!(f: Expr<'static> = Expr::Var("f", sp()));
+    node!(args0: [ExprRef<'static>; 0] = []);
+    node!(al0: ArgList<'static> = ArgList { args: &args0[..] });
+    node!(call: Expr<'static> = Expr::Call { callee: f, args: al0, span: sp() });
+    node!(i: Expr<'static> = Expr::Null(sp()));
+    node!(x: Expr<'static> = Expr::Index { array: call, index: i, index_span: sp(), span: sp() });
+    unsafe {
+        EV_NODE0 = (i as *const Expr<'static>).cast::<u8>();
+        EV_NODE1 = std::ptr::null();
+        EV_BY_CALL = false;
+        EV_VALS[0] = Some(Value::Number(0.0));
+        EV_CALLS = 0;
+    }
+    if via_assign {
+        let out = rt.assign_index(x, Value::Null, sp());
+        assert!(out.is_err(), "index-target: assigning into the result of a call is a reported error");
+        std::mem::forget(out);
+    } else {
+        let out = rt.get_mutable_array(x, sp(), "push").map(|_| ());
+        assert!(out.is_err(), "index-target: a mutating method on an element of a call result is a reported error");
+        std::mem::forget(out);
+    }
+    kani::cover!(true, "index target step reached");
+    unsafe { std::mem::forget(EV_VALS[0].take()) };
+    std::mem::forget(rt);
+}
+macro_rules! index_target_step {
+    ($name:ident, $via:literal) => { ev_proof! { #[kani::unwind(4)] fn $name() { index_target_step($via) } } };
+}
+
+// ---- 6.g shapes the parser builds and the static checker lets through: `x.len` without a call, `a[0]()` ---
+fn bare_member_step() {
+    new_runtime!(rt, frame);
+    node!(obj: Expr<'static> = Expr::Null(sp()));
+    node!(m: Expr<'static> = Expr::Member { object: obj, field: "len", field_span: sp(), span: sp() });
+    unsafe {
+        EV_NODE0 = (obj as *const Expr<'static>).cast::<u8>();
+        EV_NODE1 = std::ptr::null();
+        EV_BY_CALL = false;
+        EV_VALS[0] = Some(Value::Null);
+        EV_CALLS = 0;
+    }
+    let out = rt.verif_outer_eval_expr(m);
+    assert!(out.is_err(), "bare-member: a member access that is not called is a reported error");
+    kani::cover!(true, "bare member step reached");
+    std::mem::forget(out);
+    unsafe { std::mem::forget(EV_VALS[0].take()) };
+    std::mem::forget(rt);
+}
+ev_proof! { #[kani::unwind(4)] fn bare_member() { bare_member_step() } }
+
+impl<'a> Runtime<'a> {
+    pub fn verif_no_member_call(&mut self, _o: ExprRef<'a>, _f: &'a str, _a: &'a ArgList<'a>, _s: Span) -> Result<Value<'a>, RuntimeError> {
+        assert!(false, "cut: no member call in this step");
+        Ok(Value::Null)
+    }
+    pub fn verif_no_builtin_call(&mut self, _b: GlobalBuiltin, _a: &'a ArgList<'a>, _s: Span) -> Result<Value<'a>, RuntimeError> {
+        assert!(false, "cut: no builtin call in this step");
+        Ok(Value::Null)
+    }
+}
+fn callee_step() {
+    new_runtime!(rt, frame);
+    node!(a: Expr<'static> = Expr::Null(sp()));
+    node!(i: Expr<'static> = Expr::Null(sp()));
+    node!(callee: Expr<'static> = Expr::Index { array: a, index: i, index_span: sp(), span: sp() });
+    node!(args0: [ExprRef<'static>; 0] = []);
+    node!(al0: ArgList<'static> = ArgList { args: &args0[..] });
+    node!(call: Expr<'static> = Expr::Call { callee, args: al0, span: sp() });
+    let out = rt.eval_function_call(call);
+    assert!(out.is_err(), "callee: calling something that is not a function name or a method is a reported error");
+    kani::cover!(true, "callee step reached");
+    std::mem::forget(out);
+    std::mem::forget(rt);
+}
+#[kani::proof]
+#[kani::stub(crate::sys::unix::UnixVirtualMemory::reserve, ev_reserve)]
+#[kani::stub(crate::sys::unix::UnixVirtualMemory::commit, crate::verif_common::commit_ok)]
+#[kani::stub(crate::sys::unix::UnixVirtualMemory::decommit, crate::verif_common::vm_nop)]
+#[kani::stub(crate::sys::unix::UnixVirtualMemory::release, crate::verif_common::vm_nop)]
+#[kani::stub(crate::arena::pool::PoolSet::new, crate::arena::pool::PoolSet::verif_static)]
+#[kani::stub(crate::arena::pool::PoolSet::contains, crate::arena::pool::PoolSet::verif_contains2)]
+#[kani::stub(core::fmt::write, crate::verif_common::fmt_write)]
+#[kani::stub(crate::runtime::Runtime::eval_expr, crate::runtime::Runtime::verif_eval_prepared)]
+#[kani::stub(crate::runtime::Runtime::check_stack, crate::runtime::Runtime::verif_stack_ok)]
+#[kani::stub(crate::runtime::Runtime::eval_member_call, crate::runtime::Runtime::verif_no_member_call)]
+#[kani::stub(crate::runtime::Runtime::eval_builtin_call, crate::runtime::Runtime::verif_no_builtin_call)]
+#[kani::stub(crate::runtime::Runtime::exec_block_with_flow, crate::runtime::Runtime::verif_block_once)]
+#[kani::unwind(4)]
+fn callee_not_a_name() { callee_step() }
+
 // =====================================================================================================
 // C01 — step semantics: the same steps, now with documented operands, compared with the documented
 // result (IEEE double arithmetic, short circuit, truthiness of null, comparison tables, error kinds).
@@ -760,7 +854,7 @@ fn sem_loop(f0: u8, f1: u8) {
     assert!(tests == want_tests, "loop: the condition is tested before every pass and after every pass that ends normally or with next");
     assert!(passes == want_passes, "loop: the body runs once per true test; comot and return end the loop");
     assert!(flow_code(&out) == want_flow, "loop: comot ends the loop normally, return leaves it with its value");
-    kani::cover!(tests == 3 || matches!(f0, 1 | 3) || matches!(f1, 1 | 3), "two full passes");
+    kani::cover!(passes == 2 || matches!(f0, 1 | 3), "a second pass");
     kani::cover!(tests == 1, "a loop that ends at its first test or pass");
     std::mem::forget(out);
     unsafe {
